@@ -462,7 +462,7 @@ def check_cross_process(base, ctx):
 
 
 def run(ctx):
-    n = max(1, ctx.scale(2400, 60000) // len(GROUPS))
+    n = max(1, ctx.scale(2400, 40000) // len(GROUPS))
     for group in GROUPS:
         ctx.hypothesis(st_case(group), check_case, n, label="pairs:" + group)
     ctx.hypothesis(st_base(), check_cross_process, max(1, ctx.scale(16, 480)), label="cross-process")
